@@ -630,7 +630,7 @@ class Evaluator:
             if old.op == "list" and c.func.attr == "append":
                 # appending to a list whose items are all known gives a list whose items are all known
                 st.loc[c.func.value.id] = mk("list", tuple(old.args[0]) + (v.args[1][0],))
-            elif old.op in ("list", "listappend", "loopvar", "ite", "call", "assume", "loopout"):
+            elif old.op in ("list", "listappend", "loopvar", "ite", "call", "assume", "loopout", "comp", "listextend"):
                 st.loc[c.func.value.id] = mk("listappend" if c.func.attr == "append" else "listextend", old, v.args[1][0])
         return [_Exit("fall", st)]
 
